@@ -9,8 +9,9 @@ EXTENDS Naturals, Sequences, FiniteSets, TLC
 CONSTANTS Tables          \* universe of table names
 Defs == {"", "ON DELETE CASCADE"}   \* definitions explored by Next (the trace specification takes them from the statements)
 VARIABLES tables,         \* existing tables
-          fks,            \* live foreign keys: set of <<child, parent, name, def>>; def = the rest of the definition as the
-                          \* statement spells it (ON UPDATE / ON DELETE actions), "" when the statement gives none
+          fks,            \* live foreign keys: set of <<child, parent, name, def, columns>>; def = the rest of the definition as the
+                          \* statement spells it (ON UPDATE / ON DELETE actions), "" when the statement gives none; columns = the
+                          \* child's columns, a sequence of names
           created, dropped, \* how often each table was created / dropped by the plan so far
           checks          \* live CHECK constraints: set of <<table, id>> (id = constraint name, or "unnamed:<expr>")
 cvars == <<tables, fks, created, dropped, checks>>
@@ -32,9 +33,14 @@ AddCheck(t, id) == /\ t \in tables /\ <<t, id>> \notin checks /\ checks' = check
 DropCheck(t, id) == /\ <<t, id>> \in checks /\ checks' = checks \ {<<t, id>>} /\ UNCHANGED <<tables, fks, created, dropped>>
 \* ALTER TABLE t ADD CONSTRAINT n FOREIGN KEY .. REFERENCES p [ON UPDATE ..] [ON DELETE ..]
 \* (a constraint name is taken at most once per table: modifying a foreign key is a drop followed by an add)
-AddFK(t, p, n, d) ==
+AddFK(t, p, n, d, cs) ==
   /\ t \in tables /\ p \in tables /\ ~(\E k \in fks : k[1] = t /\ k[3] = n)
-  /\ fks' = fks \cup {<<t, p, n, d>>} /\ UNCHANGED <<tables, created, dropped, checks>>
+  /\ fks' = fks \cup {<<t, p, n, d, cs>>} /\ UNCHANGED <<tables, created, dropped, checks>>
+\* ALTER TABLE t DROP COLUMN c.  MySQL refuses while a foreign key of t uses the column (error 1828: the key has to be dropped first,
+\* possibly in the same statement); PostgreSQL drops the foreign keys of t that use it along with the column.
+Uses(k, t, c) == k[1] = t /\ \E i \in DOMAIN k[5] : k[5][i] = c
+DropColumnMy(t, c) == t \in tables /\ ~(\E k \in fks : Uses(k, t, c)) /\ UNCHANGED cvars
+DropColumnPG(t, c) == t \in tables /\ fks' = {k \in fks : ~Uses(k, t, c)} /\ UNCHANGED <<tables, created, dropped, checks>>
 \* ALTER TABLE t DROP FOREIGN KEY / CONSTRAINT n
 DropFK(t, n) ==
   /\ \E k \in fks : k[1] = t /\ k[3] = n
@@ -52,10 +58,11 @@ AddIndex(t, k) == t \in tables /\ k > 0 /\ UNCHANGED cvars
 \* any other statement on an existing table
 Other(t) == t \in tables /\ UNCHANGED cvars
 
-Next == \/ \E t \in Tables : \E P \in SUBSET Tables : CreateTable(t, { <<t, p, "fk_" \o p, "">> : p \in P })
-        \/ \E t, p \in Tables, d \in Defs : AddFK(t, p, "fk2", d)
+Next == \/ \E t \in Tables : \E P \in SUBSET Tables : CreateTable(t, { <<t, p, "fk_" \o p, "", <<p \o "_id">>>> : p \in P })
+        \/ \E t, p \in Tables, d \in Defs : AddFK(t, p, "fk2", d, <<"c2">>)
         \/ \E t \in Tables, n \in {"fk2"} \cup {"fk_" \o p : p \in Tables} : DropFK(t, n)
         \/ \E t \in Tables : DropTable(t)
+        \/ \E t \in Tables, c \in {"c2"} \cup {p \o "_id" : p \in Tables} : DropColumnMy(t, c) \/ DropColumnPG(t, c)
 Spec == Init /\ [][Next]_cvars
 
 \* one constraint name per table
